@@ -34,6 +34,12 @@ struct Ctl {
 /// worker hook events kept per case; further ones are dropped (the count is reported in the `end` event)
 const WORKER_HOOK_CAP: usize = 4000;
 
+fn involved_tids() -> Vec<i32> {
+    let mut v = tids_named("vring_worker");
+    v.extend(tids_named("vh-daemon"));
+    v
+}
+
 const W_HOLDS: [&str; 3] = ["w.after_wait", "w.after_read", "w.before_dispatch"];
 const C_HOLDS: [&str; 4] = ["c.after_setkick", "c.after_state", "c.after_ctl", "c.after_dropkick"];
 
@@ -81,13 +87,16 @@ impl Ctl {
         }
         self.cv.notify_all();
     }
-    /// wait until the event log has been quiet for `quiet`
+    /// wait until the event log has been quiet for `quiet` and the worker and daemon threads are asleep (at a hold point, in
+    /// epoll_wait, in a socket read): on a loaded machine a thread that is still on its way must not be mistaken for one that
+    /// has nothing to do (which would quietly turn the schedule into a different, tamer one)
     fn settle(&self, quiet: Duration) {
+        let t0 = Instant::now();
         let mut n = self.log.m.lock().unwrap().len();
         loop {
             std::thread::sleep(quiet);
             let m = self.log.m.lock().unwrap().len();
-            if m == n {
+            if m == n && (blocked_now(&involved_tids()) || t0.elapsed() > Duration::from_secs(3)) {
                 return;
             }
             n = m;
@@ -116,7 +125,15 @@ impl Ctl {
                 return true;
             }
             if t0.elapsed() > grace {
-                return false;
+                // not at a hold point: it is not coming only if it sleeps elsewhere (epoll_wait, socket read)
+                let tids = tids_named(if class == 'w' { "vring_worker" } else { "vh-daemon" });
+                if blocked_now(&tids) || t0.elapsed() > Duration::from_secs(3) {
+                    let held = if class == 'w' { g.held_w.is_some() } else { g.held_c.is_some() };
+                    if !held {
+                        return false;
+                    }
+                    continue;
+                }
             }
             g = self.cv.wait_timeout(g, Duration::from_millis(1)).unwrap().0;
         }
